@@ -121,6 +121,9 @@ unsafe impl<L: Lockable> RawLock for RetryingLockCollection<L> {
 					if lock.raw_try_write() {
 						locked.set(locked.get() + 1);
 					} else {
+						// if the rollback panics, the locks it covers must not
+						// be unlocked a second time by the unwind handler below
+						locked.set(0);
 						// safety: we already locked all of these
 						attempt_to_recover_writes_from_panic(&locks[0..i]);
 						return false;
@@ -136,9 +139,7 @@ unsafe impl<L: Lockable> RawLock for RetryingLockCollection<L> {
 	unsafe fn raw_unlock_write(&self) {
 		let locks = get_locks_unsorted(&self.data);
 
-		for lock in locks {
-			lock.raw_unlock_write();
-		}
+		attempt_to_recover_writes_from_panic(&locks)
 	}
 
 	unsafe fn raw_read(&self) {
@@ -211,6 +212,9 @@ unsafe impl<L: Lockable> RawLock for RetryingLockCollection<L> {
 					if lock.raw_try_read() {
 						locked.set(locked.get() + 1);
 					} else {
+						// if the rollback panics, the locks it covers must not
+						// be unlocked a second time by the unwind handler below
+						locked.set(0);
 						// safety: we already locked all of these
 						attempt_to_recover_reads_from_panic(&locks[0..i]);
 						return false;
@@ -226,9 +230,7 @@ unsafe impl<L: Lockable> RawLock for RetryingLockCollection<L> {
 	unsafe fn raw_unlock_read(&self) {
 		let locks = get_locks_unsorted(&self.data);
 
-		for lock in locks {
-			lock.raw_unlock_read();
-		}
+		attempt_to_recover_reads_from_panic(&locks)
 	}
 }
 
